@@ -290,3 +290,39 @@ def replay_begline_nesting(o0, o1, o2, o3, o4, o5):
         if got != want:
             return ("parse(" + repr(doc) + ")", True, f"section/list structure {got} (a line start inside the arguments of a construct was interpreted after a nested construct ended); expected {want}")
     return ("parse(" + repr(NEST_DOCS[0][0]) + ")", False, "")
+
+
+# ---------------------------------------------------------------- a heading-end token without a heading start on its line
+def stray_heading_end_step(mask: int, L: int, in_template: bool) -> bool:
+    """`==` (any level) arriving where no heading was opened ON THIS LINE - inline text such as `{{t|== x ==}}` or `a == b` in
+    a section that started on an earlier line - is text: no section is closed, nothing moves into a heading argument, the
+    token lands in the open node."""
+    build(mask, [])
+    ctx.beginning_of_line = False
+    top = ctx.parser_stack[-1]
+    if in_template:
+        top = _parser_push(ctx, NodeKind.TEMPLATE)
+        top.largs = [["t"], []]
+    before = list(ctx.parser_stack)
+    largs_before = [list(map(list, n.largs)) for n in before]
+    text_fn(ctx, "x ")
+    subtitle_end_fn(ctx, ">" + "=" * L)
+    st = ctx.parser_stack
+    if len(st) != len(before) or any(a is not b for a, b in zip(st, before)):
+        return False
+    if in_template:
+        # inside a template the text goes to the current argument
+        return [list(map(list, n.largs)) for n in before[:-1]] == largs_before[:-1] and "".join(x for x in top.children if isinstance(x, str)).endswith("=" * L)
+    return [list(map(list, n.largs)) for n in before] == largs_before and "".join(x for x in top.children if isinstance(x, str)).endswith("=" * L)
+
+
+def replay_stray_heading_end(mask, L, in_template):
+    inner = ("{{t|" if in_template else "") + "=" * L + " x " + "=" * L + ("}}" if in_template else "")
+    doc = canonical_doc(mask, [], "intro " + inner) + "after\n"
+    w = Wtp(quiet=True, quiet_output=True)
+    w.start_page("T")
+    got = shape(w.parse(doc))
+    # reference: the same document with the pseudo-heading replaced by plain words has the same section structure
+    w.start_page("T")
+    plain = shape(w.parse(canonical_doc(mask, [], "intro " + ("{{t|" if in_template else "") + "QQ x QQ" + ("}}" if in_template else "")) + "after\n"))
+    return ("parse(" + repr(doc) + ")", got != plain, f"section structure {got}; with plain words in place of the inline '{'=' * L} x {'=' * L}' it is {plain}")
